@@ -82,7 +82,25 @@ impl<Read: ReadHalf> ReadConnection<Read> {
         enum ReplyMsg<ReplyParams, ReplyError> {
             Varlink(varlink_service::Error),
             Error(ReplyError),
-            Reply(Reply<ReplyParams>),
+            Reply(Success<ReplyParams>),
+        }
+
+        // A successful reply: like `Reply` but refuses a message that has an `error` member, so
+        // that an error neither of the error types above recognises is never taken for a success.
+        #[derive(Debug, Deserialize)]
+        struct Success<ReplyParams> {
+            parameters: Option<ReplyParams>,
+            continues: Option<bool>,
+            #[serde(default, rename = "error", deserialize_with = "not_a_success")]
+            _error: (),
+        }
+
+        fn not_a_success<'de, D: serde::Deserializer<'de>>(
+            _: D,
+        ) -> core::result::Result<(), D::Error> {
+            Err(serde::de::Error::custom(
+                "an error reply is not a successful reply",
+            ))
         }
 
         match self
@@ -94,7 +112,10 @@ impl<Read: ReadHalf> ReadConnection<Read> {
             ReplyMsg::Error(e) => Ok(Err(e)),
             ReplyMsg::Reply(reply) => {
                 // It's a success response.
-                Ok(Ok(reply))
+                Ok(Ok(Reply {
+                    parameters: reply.parameters,
+                    continues: reply.continues,
+                }))
             }
         }
     }
